@@ -27,6 +27,7 @@ R = z3.Real
 def work(item):
     tj, style, seed, timeout_ms, engines = item[:5]
     hist = item[5] if len(item) > 5 else "fresh"
+    flags = runs.flags_of(item[6]) if len(item) > 6 and item[6] else None  # positivity options: clamps are per quantity, the allowed sets stay the same
     builder = netcheck.history_builders()[hist]
     topo = T_.Topo.from_json(tj)
     rng = random.Random(seed)
@@ -40,10 +41,10 @@ def work(item):
     try:
         encs = []
         if "numpy" in engines:
-            encs += netcheck.numpy_encodings(topo, style, None, D, builder=builder)
+            encs += netcheck.numpy_encodings(topo, style, flags, D, builder=builder)
         for st in ("SX", "MX"):
             if st in engines:
-                e = netcheck.casadi_encoding(topo, st, numeric0, builder=builder)
+                e = netcheck.casadi_encoding(topo, st, numeric0, flags, builder=builder)
                 e.extra["numeric"] = numeric0
                 encs.append(e)
     except (symx.UnsupportedOp, symx.Inconclusive) as e:
@@ -53,7 +54,7 @@ def work(item):
     for enc in encs:
         acc.d["encodings"] += 1
         if enc.exc is not None:
-            acc.exec_violation(PID, topo, enc.name, style, f"raised {type(enc.exc).__name__}: {enc.exc}")
+            acc.exec_violation(PID, topo, enc.name, style, f"raised {type(enc.exc).__name__}: {enc.exc}", flags)
             continue
         if enc.name.startswith("numpy"):
             acc.d["paths"] += 1
@@ -87,7 +88,7 @@ def work(item):
                     def on_sat(model, key=key, i=i, name=name, enc=enc, numeric=numeric):
                         env = netcheck.model_env(topo, model, rng, numeric)
                         val2 = (model or {}).get(name + "'", env[name] + 1.0)
-                        return replay_perturb(topo, style, enc.name, env, key, i, name, val2, numeric)
+                        return replay_perturb(topo, style, enc.name, env, key, i, name, val2, numeric, flags=flags)
 
                     acc.query(prover, topo, enc.name, f"next {key[1]}_{key[0]}[{i}] independent of {name}", s.t == s2, dom, pc2, on_sat)
                 # reachability twin: some allowed state input that occurs must be able to change the output
@@ -111,15 +112,19 @@ def work(item):
     return acc.done(prover)
 
 
-def replay_perturb(topo, style, encname, env, key, i, name, val2, numeric, verbose=False):
-    from checks import c02
+def replay_perturb(topo, style, encname, env, key, i, name, val2, numeric, verbose=False, flags=None):
+    from checks import c02, c18
 
     env2 = dict(env)
     env2[name] = val2
     if env2[name] == env[name]:
         env2[name] = env[name] + 1.0
-    ra, ea = c02.real_next(topo, encname, style, env, numeric)
-    rb, eb = c02.real_next(topo, encname, style, env2, numeric)
+    if flags and any(flags.values()):
+        ra, ea = c18.real_next_flags(topo, encname, style, env, numeric, flags)
+        rb, eb = c18.real_next_flags(topo, encname, style, env2, numeric, flags)
+    else:
+        ra, ea = c02.real_next(topo, encname, style, env, numeric)
+        rb, eb = c02.real_next(topo, encname, style, env2, numeric)
     if ea is not None or eb is not None:
         return None
     x, y = ra[tuple(key)][i], rb[tuple(key)][i]
@@ -131,7 +136,7 @@ def replay_perturb(topo, style, encname, env, key, i, name, val2, numeric, verbo
             "what": f"{topo.describe()} | {encname}: next {key[1]}_{key[0]}[{i}] changes from {x!r} to {y!r} when only {name} changes ({env[name]!r} -> {env2[name]!r}); "
                     f"the model does not let {name} influence it",
             "replay": {"property": PID, "kind": "perturb", "topo": topo.to_json(), "style": style, "encoding": encname, "env": env, "target": [list(key), i],
-                       "name": name, "val2": env2[name], "numeric": numeric}}
+                       "name": name, "val2": env2[name], "numeric": numeric, "flags": flags}}
 
 
 def replay(rec):
@@ -139,7 +144,7 @@ def replay(rec):
         return netcheck.replay_exec(rec)
     topo = T_.Topo.from_json(rec["topo"])
     key, i = rec["target"]
-    return 1 if replay_perturb(topo, rec["style"], rec["encoding"], rec["env"], key, i, rec["name"], rec["val2"], rec.get("numeric"), True) else 0
+    return 1 if replay_perturb(topo, rec["style"], rec["encoding"], rec["env"], key, i, rec["name"], rec["val2"], rec.get("numeric"), True, rec.get("flags")) else 0
 
 
 def main():
@@ -160,13 +165,24 @@ def main():
             continue
         for h in (hs if args.thorough else [hs[k % 3]]):
             items.append((t.to_json(), ("array", "scalar")[(k + 1) % 2], args.seed + k, timeout, ("numpy", "SX"), h))
+    # positivity options on (the compiled function then recovers its input symbols from clamped expressions) and a link with
+    # more than ten segments (two-digit indices)
+    for bits in (0b000011, 0b111111):
+        if not args.only or args.only in families.long_link().name:
+            items.append((families.long_link().to_json(), "array", args.seed, timeout, ("numpy", "SX", "MX"), "fresh", bits))
+    optsets = (0b000011, 0b111111, 0b000101, 0b111000, 0b010010)
+    for k, t in enumerate(families.curated()):
+        if args.only and args.only not in t.name:
+            continue
+        for j in range(len(optsets) if args.thorough else 1):
+            items.append((t.to_json(), ("array", "scalar")[(k + j) % 2], args.seed + k, timeout, ("numpy", "SX", "MX"), "fresh", optsets[(k + j) % len(optsets)]))
     results = harness.pmap(work, items, args.serial)
     viol, inc, tot, levels, samples, st, extra = netcheck.summarize(results)
     cov = netcheck.base_coverage(
         tot, levels, samples, st, len(items),
         "pair = (encoding, output component, input/parameter scalar not in the oracle's variable set); pairs whose input does not occur in the implementation "
         "term close by congruence, the others are decided by z3 (self-composition); plus reachability twins (allowed input must be able to change the output: sat expected)",
-        {"bounds": {"family": "K (20 curated)" + (" + E(4,5) + every 2nd of E(3,4) with up to 5 segments + R(seed,30)" if args.thorough else ""), "values": "admissible domain for both copies"},
+        {"bounds": {"family": "K (20 curated), also with positivity options on (1 option vector per topology quick / 5 thorough); a 12-segment link with options on" + (" + E(4,5) + every 2nd of E(3,4) with up to 5 segments + R(seed,30)" if args.thorough else ""), "values": "admissible domain for both copies"},
          "pairs": extra.get("pairs", 0), "pairs_closed_by_congruence": extra.get("pairs_closed_by_congruence", 0), "pairs_to_solver": extra.get("pairs_to_solver", 0),
          "vacuity_twins": {"sat": extra.get("twins_sat", 0), "total": extra.get("twins_total", 0)},
          "functions_encoded": ["Network.step and everything it calls (NumPy symbolic)", "Engine.to_function IR (SX, MX)"]})
